@@ -103,6 +103,12 @@ def gen_case(seed, i):
             d += ["--no-lock"]
         case["dargs"] = d
         case["gflags"] = rng.choice([[], [], ["-S"], ["-H"], ["--rf-over", "0"]])
+    # (drawn last, the earlier stream is unchanged) the temporary directory of a transform cannot be created
+    # (TMPDIR read-only, full, not permitted) and the command is started INSIDE the scanned tree: whatever fclones
+    # does then - give up, or look for another place - nothing may appear in the tree
+    r = rng.random()
+    if case["kind"] == "group" and cfg.get("transform") and r < 0.2:
+        case["tmp_fail"] = rng.choice(["EACCES", "ENOSPC", "EROFS", "ENOENT"])
     return case
 
 
@@ -125,6 +131,8 @@ def shrink(case):
         c = dict(case); c["out_file"] = False; yield c
     if case.get("tmp_xdev"):
         c = dict(case); c["tmp_xdev"] = False; yield c
+    if case.get("tmp_fail"):
+        c = dict(case); del c["tmp_fail"]; yield c
     if case["cfg"].get("cache"):
         c = dict(case); c["cfg"] = dict(case["cfg"], cache=False); yield c
     if case["cfg"]["threads"] != ["1"]:
@@ -206,6 +214,9 @@ def run_case(case):
                 args += ["-o", os.path.join(outdir, "report.out")]
             runs = 2 if cfg.get("cache") else 1
             genv, gcwd = env, None
+            if case.get("tmp_fail"):
+                gcwd = os.path.join(rd.world, case["roots"][0])
+                xplan = xplan + [rule(kind="mkdir", act="errno:" + case["tmp_fail"], prefix=rd.tmp, count="inf", proc="any")]
             if "xdg" in case:
                 genv, gcwd = dict(env, XDG_CACHE_HOME=case["xdg"]), os.path.join(rd.world, case["roots"][0])
             for k in range(runs):
@@ -236,6 +247,7 @@ def run_case(case):
             "sig": ops.trace_sig(rd, traces, verdict),
             "probes": {"kind_" + case["kind"]: 1, "transform_" + str(case.get("tclass", "none")): 1,
                        "cache": int(bool(cfg.get("cache"))), "out_file": int(bool(case.get("out_file"))),
+                       "temp_dir_cannot_be_created": int(bool(case.get("tmp_fail"))),
                        "child_processes": sum(max(t.procs - 1, 0) for t in traces)},
             "sim_ns": 0,
             "invocations": len(traces),
